@@ -17,7 +17,8 @@ mb = wsdimpl.MatchBy
 if sorted(m.name for m in mb) != ['ldap', 'strcmp', 'uri', 'uuid']:
     raise SystemExit(f'fail-closed: MatchBy members changed: {[m.name for m in mb]}')
 if wsdimpl.allow_missing_app_sequence is not False:
-    raise SystemExit('fail-closed: allow_missing_app_sequence is not False (model ignores messages without AppSequence)')
+    raise SystemExit('fail-closed: the default of allow_missing_app_sequence is not False (the model takes the option as a '
+                     'parameter; the correspondence drives both values)')
 W = wsdimpl.WSDiscovery
 if not (W.PROBEMATCH_EPR and W.PROBEMATCH_TYPES and W.PROBEMATCH_SCOPES and W.PROBEMATCH_XADDRS):
     raise SystemExit('fail-closed: a PROBEMATCH_* flag is off (model sends complete ProbeMatch entries)')
